@@ -60,10 +60,10 @@ structure Ops where
 def parseOp (o : Ops) (w : String) : Option Ops :=
   match w.splitOn "," with
   | ["t", a, b, c] => match a.toNat?, b.toNat?, c.toNat? with
-    | some a, some b, some c => some { o with tr := o.tr ++ [⟨a, b, c⟩] }
+    | some a, some b, some c => some { o with tr := o.tr ++ [{ src := a, dst := b, amount := c }] }
     | _, _, _ => none
   | ["s", a, b, c] => match a.toNat?, b.toNat?, c.toNat? with
-    | some a, some b, some c => some { o with sg := o.sg ++ [⟨a, b, c⟩] }
+    | some a, some b, some c => some { o with sg := o.sg ++ [{ src := a, dst := b, amount := c }] }
     | _, _, _ => none
   | ["w", k, v] => match k.toNat?, v.toNat? with
     | some k, some v => some { o with ws := o.ws ++ [.put k v] }
